@@ -1,5 +1,5 @@
 (* C13 - the finite obligations over the GENERATED tables (Gen.v is re-emitted from the source
-   on every run) and their lifting to every connect order. *)
+   on every run: one table set per device profile) and their lifting to every connect order. *)
 From Coq Require Import List Bool Arith String Lia.
 From PV Require Import Common.Cases C01.Model C01.Spec C01.Proofs C13.Model C13.Proofs C13.Gen.
 Import ListNotations.
@@ -12,112 +12,183 @@ Definition members_of (f : feature) : list (iface * string) :=
   | None => []
   end.
 
-Definition entry (p : proto) (i : iface) :=
-  find (fun e => proto_eqb (fst (fst e)) p && iface_eqb (snd (fst e)) i) real_impl.
+(* some set-up unit makes the features interface answer something else than Unsupported *)
+Definition reportable_set (S : list unit) (f : feature) : bool :=
+  (Nat.eqb f push_updates && existsb (fun u => u_has u IPushUpdater) S) ||
+  existsb (fun u => u_has u IFeatures && memf f (u_feats u)) S.
 
-(* the class p registers for interface i overrides member m *)
-Definition impl_b (p : proto) (i : iface) (m : string) : bool :=
-  match entry p i with
-  | Some (_, _, ms) => existsb (String.eqb m) ms
-  | None => false
-  end.
+Definition backed (S : list unit) (im : iface * string) : bool :=
+  existsb (fun u => impl_u u (fst im) (snd im)) S.
 
-(* the registration the connected real protocols produce for member m of interface i *)
-Definition real_reg (order : list proto) (i : iface) (m : string) : registry :=
-  fun p =>
-    if memp p order
-    then match entry p i with
-         | Some (_, _, ms) => Some {| truthy := real_truthy; has_attr := real_subclass;
-                                     overrides := existsb (String.eqb m) ms |}
-         | None => None
-         end
-    else None.
-
-Lemma implements_real order i m p :
-  implements (real_reg order i m) p = memp p order && impl_b p i m.
-Proof.
-  unfold implements, real_reg, impl_b. destruct (memp p order); [|reflexivity].
-  destruct (entry p i) as [[[a b] ms]|]; reflexivity.
-Qed.
-
-(* some connected protocol makes the features interface answer something else than Unsupported *)
-Definition reportable_set (S : list proto) (f : feature) : bool :=
-  (Nat.eqb f push_updates && existsb has_push S) ||
-  existsb (fun p => elig feats has_features p f) S.
-
-Definition backed (S : list proto) (im : iface * string) : bool :=
-  existsb (fun p => impl_b p (fst im) (snd im)) S.
-
-(* ALL subsets of the five protocols (32, the empty one included) x ALL feature names *)
-Definition check_all : bool :=
+(* one profile: ALL subsets of the SetupData the five setup() generators yield under it
+   x ALL feature names *)
+Definition check_profile (us : list unit) : bool :=
   forallb (fun S => forallb (fun f => implb (reportable_set S f) (forallb (backed S) (members_of f)))
                             features)
-          (sublists all_protos).
+          (sublists us).
+
+(* ALL device profiles *)
+Definition check_all : bool := forallb (fun pr => check_profile (snd pr)) profiles.
 
 Lemma check_all_true : check_all = true.
 Proof. vm_compute. reflexivity. Qed.
-
-Lemma subsets_count : List.length (sublists all_protos) = 32.
-Proof. reflexivity. Qed.
 
 (* every feature name stands for at least one interface member *)
 Lemma gen_members_nonempty :
   forallb (fun f => match members_of f with [] => false | _ => true end) features = true.
 Proof. vm_compute. reflexivity. Qed.
 
-(* every feature a protocol lists is a feature name *)
-Lemma gen_feats_known :
-  forallb (fun p => forallb (fun f => memf f features) (feats p)) all_protos = true.
+(* every feature a unit lists is a feature name; every registered object is a truthy instance of
+   its base interface; under every profile the setups yield at most 8 SetupData *)
+Lemma gen_units_ok :
+  forallb (fun pr => forallb (fun u => u_ok u && forallb (fun f => memf f features) (u_feats u)) (snd pr)
+                     && (List.length (snd pr) <=? 8)) profiles = true.
 Proof. vm_compute. reflexivity. Qed.
 
 Lemma gen_prio : default_ast = text_default /\ default_rt = text_default.
 Proof. vm_compute. split; reflexivity. Qed.
 
-Lemma gen_real_conforming : real_truthy && real_subclass = true.
-Proof. vm_compute. reflexivity. Qed.
+Lemma profiles_count : List.length profiles = 14.
+Proof. reflexivity. Qed.
 
-Lemma real_reg_conforming order i m : conforming (real_reg order i m).
+(* ------------------------------------------------------------------ eff *)
+
+Lemma eff_notin_done order : forall done u, In u (eff order done) -> memp (u_proto u) done = false.
 Proof.
-  intros p x. unfold real_reg. destruct (memp p order); [|discriminate].
-  destruct (entry p i) as [[[a b] ms]|]; [|discriminate].
-  intro H. inversion H; subst. simpl.
-  pose proof gen_real_conforming as G. apply andb_true_iff in G. exact G.
+  induction order as [|v rest IH]; intros done u I; simpl in I; [destruct I|].
+  destruct (memp (u_proto v) done) eqn:M.
+  - exact (IH done u I).
+  - destruct I as [<-|I]; [exact M|]. specialize (IH _ u I).
+    unfold memp in *. rewrite existsb_app in IH. apply orb_false_iff in IH. tauto.
 Qed.
 
-Lemma reported_reportable order f :
-  feature_of default_rt feats has_features has_push push_updates order f <> FUnsupported ->
-  reportable_set (canon order) f = true.
+Lemma eff_subset order : forall done u, In u (eff order done) -> In u order.
 Proof.
-  intro H. pose proof (feature_of_spec default_rt feats has_features has_push push_updates order f) as S.
+  induction order as [|v rest IH]; intros done u I; simpl in I; [destruct I|].
+  destruct (memp (u_proto v) done).
+  - right. exact (IH done u I).
+  - destruct I as [<-|I]; [now left|right; exact (IH _ u I)].
+Qed.
+
+(* the set-up unit of a protocol is unique: the units kept by eff have pairwise distinct protocols *)
+Lemma eff_unit_of order : forall done u, In u (eff order done) ->
+  unit_of (eff order done) (u_proto u) = Some u.
+Proof.
+  induction order as [|v rest IH]; intros done u I; simpl in *; [destruct I|].
+  destruct (memp (u_proto v) done) eqn:M; [exact (IH done u I)|].
+  unfold unit_of. simpl. destruct I as [<-|I].
+  - assert (E : proto_eqb (u_proto v) (u_proto v) = true) by now apply proto_eqb_eq. now rewrite E.
+  - destruct (proto_eqb (u_proto v) (u_proto u)) eqn:E.
+    + apply proto_eqb_eq in E. pose proof (eff_notin_done rest _ u I) as N.
+      unfold memp in N. rewrite existsb_app in N. apply orb_false_iff in N as [_ N].
+      simpl in N. rewrite orb_false_r in N.
+      assert (T : proto_eqb (u_proto u) (u_proto v) = true) by (apply proto_eqb_eq; now symmetry).
+      rewrite T in N. discriminate.
+    + exact (IH _ u I).
+Qed.
+
+Lemma unit_of_In us p u : unit_of us p = Some u -> In u us /\ u_proto u = p.
+Proof.
+  unfold unit_of. intro H. apply find_some in H as [I E]. split; [exact I|]. now apply proto_eqb_eq.
+Qed.
+
+(* ------------------------------------------------------------------ canonical subset *)
+
+Lemma unit_eq_dec : forall a b : unit, {a = b} + {a <> b}.
+Proof. repeat decide equality. Defined.
+
+Definition canon (us E : list unit) : list unit :=
+  filter (fun u => if in_dec unit_eq_dec u E then true else false) us.
+
+Lemma canon_In us E u : (forall v, In v E -> In v us) -> (In u (canon us E) <-> In u E).
+Proof.
+  intro Sub. unfold canon. rewrite filter_In. destruct (in_dec unit_eq_dec u E) as [I|N].
+  - split; [tauto|]. intros _. split; [now apply Sub|reflexivity].
+  - split; [intros [_ H]; discriminate|tauto].
+Qed.
+
+Lemma existsb_canon us E g : (forall v, In v E -> In v us) ->
+  existsb g (canon us E) = existsb g E.
+Proof.
+  intro Sub. apply eq_true_iff_eq. rewrite !existsb_exists.
+  split; intros (x & I & G); exists x; (split; [|exact G]); now apply (canon_In us E x Sub).
+Qed.
+
+(* ------------------------------------------------------------------ lifting *)
+
+Lemma reported_reportable order f :
+  feature_of_units default_rt push_updates order f <> FUnsupported ->
+  reportable_set (eff order []) f = true.
+Proof.
+  intro H. unfold feature_of_units in H. set (E := eff order []) in *.
+  pose proof (feature_of_spec default_rt (ufeats E) (uhas IFeatures E) (uhas IPushUpdater E)
+                              push_updates (map u_proto E) f) as S.
   unfold reportable_set.
-  destruct (feature_of default_rt feats has_features has_push push_updates order f) as [|q|].
-  - destruct S as (-> & p & Ip & Hp). rewrite Nat.eqb_refl. simpl.
-    apply orb_true_iff. left. apply existsb_exists. exists p. split; [now apply canon_In|exact Hp].
-  - destruct S as (Iq & Eq & _ & _). apply orb_true_iff. right. apply existsb_exists.
-    exists q. split; [now apply canon_In|exact Eq].
+  destruct (feature_of default_rt (ufeats E) (uhas IFeatures E) (uhas IPushUpdater E)
+                       push_updates (map u_proto E) f) as [|q|].
+  - destruct S as (-> & p & _ & Hp). rewrite Nat.eqb_refl. simpl.
+    apply orb_true_iff. left. unfold uhas in Hp.
+    destruct (unit_of E p) as [u|] eqn:U; [|discriminate].
+    apply existsb_exists. exists u. split; [exact (proj1 (unit_of_In _ _ _ U))|exact Hp].
+  - destruct S as (_ & Eq & _ & _). apply orb_true_iff. right.
+    unfold elig, uhas, ufeats in Eq. destruct (unit_of E q) as [u|] eqn:U.
+    + apply existsb_exists. exists u. split; [exact (proj1 (unit_of_In _ _ _ U))|exact Eq].
+    + rewrite andb_false_l in Eq. discriminate.
   - contradiction.
 Qed.
 
-Lemma features_backed order f : In f features ->
-  feature_of default_rt feats has_features has_push push_updates order f <> FUnsupported ->
-  forall i m, In (i, m) (members_of f) ->
-  (exists p, In p order /\ impl_b p i m = true) /\
-  forall ord, (forall p, In p ord) ->
-    exists q, find_instance (real_reg order i m) ord = Routed q /\ In q order /\ impl_b q i m = true.
+Lemma implements_units E i m p :
+  implements (reg_units E i m) p =
+  match unit_of E p with Some u => impl_u u i m | None => false end.
 Proof.
-  intros If R i m Im.
-  pose proof (reported_reportable order f R) as Rep.
+  unfold implements, reg_units, impl_u. destruct (unit_of E p) as [u|]; [|reflexivity].
+  destruct (u_iface u i); reflexivity.
+Qed.
+
+Lemma units_ok_of name us : In (name, us) profiles ->
+  forall u, In u us -> u_ok u = true.
+Proof.
+  intros I u Iu. pose proof (proj1 (forallb_forall _ _) gen_units_ok (name, us) I) as H.
+  cbv beta in H. apply andb_true_iff in H as [H _]. simpl in H.
+  pose proof (proj1 (forallb_forall _ _) H u Iu) as K. cbv beta in K.
+  apply andb_true_iff in K. tauto.
+Qed.
+
+Lemma reg_units_conforming E i m : (forall u, In u E -> u_ok u = true) -> conforming (reg_units E i m).
+Proof.
+  intros Ok p x. unfold reg_units. destruct (unit_of E p) as [u|] eqn:U; [|discriminate].
+  destruct (u_iface u i); [|discriminate]. intro H. inversion H; subst. simpl.
+  rewrite (Ok u (proj1 (unit_of_In _ _ _ U))). auto.
+Qed.
+
+Lemma features_backed name us order f :
+  In (name, us) profiles -> (forall u, In u order -> In u us) -> In f features ->
+  feature_of_units default_rt push_updates order f <> FUnsupported ->
+  forall i m, In (i, m) (members_of f) ->
+  (exists u, In u (eff order []) /\ impl_u u i m = true) /\
+  forall ord, (forall p, In p ord) ->
+    exists q u, find_instance (reg_units (eff order []) i m) ord = Routed q /\
+                In u (eff order []) /\ u_proto u = q /\ impl_u u i m = true.
+Proof.
+  intros Ip Sub If R i m Im. set (E := eff order []) in *.
+  assert (SubE : forall v, In v E -> In v us) by (intros v Iv; apply Sub; exact (eff_subset _ _ _ Iv)).
+  pose proof (reported_reportable order f R) as Rep. fold E in Rep.
   pose proof check_all_true as Chk. unfold check_all in Chk.
-  pose proof (proj1 (forallb_forall _ _) Chk (canon order) (canon_in_sublists order)) as C1.
+  pose proof (proj1 (forallb_forall _ _) Chk (name, us) Ip) as C0. cbv beta in C0. unfold check_profile in C0. simpl snd in C0.
+  pose proof (proj1 (forallb_forall _ _) C0 (canon us E) (filter_in_sublists _ us)) as C1. cbv beta in C1.
   pose proof (proj1 (forallb_forall _ _) C1 f If) as C2. cbv beta in C2.
-  rewrite Rep in C2. change (forallb (backed (canon order)) (members_of f) = true) in C2.
+  assert (RepC : reportable_set (canon us E) f = true).
+  { unfold reportable_set in *. now rewrite !(existsb_canon us E _ SubE). }
+  rewrite RepC in C2. change (forallb (backed (canon us E)) (members_of f) = true) in C2.
   pose proof (proj1 (forallb_forall _ _) C2 (i, m) Im) as B. unfold backed in B. cbn [fst snd] in B.
-  apply existsb_exists in B as (p & Ip & Hp). apply (proj1 (canon_In order p)) in Ip.
-  assert (E : exists p, implements (real_reg order i m) p = true).
-  { exists p. rewrite implements_real. apply andb_true_iff. split; [now apply memp_In|exact Hp]. }
-  split; [exists p; auto|].
+  rewrite (existsb_canon us E _ SubE) in B.
+  apply existsb_exists in B as (u & Iu & Hu).
+  split; [exists u; auto|].
   intros ord All.
-  destruct (routed_if_implemented _ (real_reg_conforming order i m) E ord All) as (q & F & Iq).
-  exists q. split; [exact F|]. rewrite implements_real in Iq. apply andb_true_iff in Iq as [A B].
-  split; [now apply memp_In|exact B].
+  assert (Ex : exists p, implements (reg_units E i m) p = true).
+  { exists (u_proto u). rewrite implements_units. unfold E. rewrite (eff_unit_of order [] u Iu). exact Hu. }
+  assert (Ok : forall v, In v E -> u_ok v = true) by (intros v Iv; exact (units_ok_of name us Ip v (SubE v Iv))).
+  destruct (routed_if_implemented _ (reg_units_conforming E i m Ok) Ex ord All) as (q & F & Iq).
+  rewrite implements_units in Iq. destruct (unit_of E q) as [w|] eqn:W; [|discriminate].
+  destruct (unit_of_In _ _ _ W) as [Iw Pw]. exists q, w. auto.
 Qed.
